@@ -181,11 +181,16 @@ def run_decl_history(item):
 
 
 # ---- content --------------------------------------------------------------------------------------------------------
-def esc_for(pos, content):
-    """write the content into the source: characters that would end or break the construct are written as CSS escapes"""
+def esc_for(pos, content, style="hex"):
+    """write the content into the source: characters that would end or break the construct are written as CSS escapes
+    (style 'simple': quotes and the backslash as backslash + character instead of a hex escape)"""
     out = ""
     for ch in content:
-        if pos == "comment":
+        if style == "simple" and pos not in ("comment", "comment-in-block", "ident", "class", "id") and ch in '"\'\\':
+            # the templates quote with ": the other quote needs no escape (cssutils keeps a needless simple escape as written)
+            out += ch if ch == "'" else "\\" + ch
+            continue
+        if pos in ("comment", "comment-in-block"):
             out += ch
         elif pos in ("ident", "class", "id"):
             out += ch if (ch.isalnum() and ch.isascii()) or ord(ch) > 127 else "\\%x " % ord(ch)
@@ -195,7 +200,7 @@ def esc_for(pos, content):
 
 
 SRC = {"string": 'a { content: "%s" }', "url": 'a { background: url("%s") }', "ident": "a { font-family: z%s }", "class": ".z%s { left: 0 }",
-       "id": "#z%s { left: 0 }", "attrvalue": 'a[b="%s"] { left: 0 }', "nsuri": '@namespace p "%s";', "href": '@import "%s";', "comment": "/*%s*/"}
+       "id": "#z%s { left: 0 }", "attrvalue": 'a[b="%s"] { left: 0 }', "nsuri": '@namespace p "%s";', "href": '@import "%s";', "comment": "/*%s*/", "comment-in-block": "a { /*%s*/ left: 0 }"}
 
 
 def read(sheet, pos):
@@ -225,7 +230,46 @@ def read(sheet, pos):
         return r.href
     if pos == "comment":
         return r.cssText[2:-2]
+    if pos == "comment-in-block":
+        for it in r.style.seq:
+            if isinstance(it.value, css.CSSComment):
+                return it.value.cssText[2:-2]
+        return "#noitem"
     return "#?"
+
+
+def run_importedit(item):
+    """an @import rule, possibly with a comment next to its href, after an accepted edit through the DOM"""
+    init()
+    prefs("safe")
+    r = dict(item)
+    rid = r.pop("id")
+    href = {"none": '"a.css"', "before-href": '/*c*/ "a.css"', "after-href": '"a.css" /*c*/'}[r["cm"]]
+    src = "@import %s%s%s;\nz { left: 0 }" % (href, " print" if r["media"] == "print" else "", ' "nm"' if r["name"] else "")
+    a = {"kind": "importedit", "op": r["edit"], "cm": r["cm"], "name": r["name"], "media": r["media"], "src": src}
+
+    def f():
+        sheet = sheetast.parse(src)
+        rule = sheet.cssRules[0]
+        if r["edit"] == "mediaText":
+            rule.media.mediaText = "tv, print"
+        elif r["edit"] == "mediaobject":
+            rule.media = "screen"
+        elif r["edit"] == "href":
+            rule.href = "b.css"
+        elif r["edit"] == "name":
+            rule.name = "other"
+        return observe(sheet, with_nodes=True)
+    out, o = outcome(f)
+    cssutils.log.raiseExceptions = True
+    prefs("defaults")
+    if out != "ok":
+        return {"id": rid, "skip": True}       # the edit was rejected: nothing to round-trip
+    return {"id": rid, "item": a, "init": {"x": 0}, "steps": [{"a": a, "out": "ok", "post": o}]}
+
+
+def run_content_row(item):
+    return run_importedit(item) if item.get("kind") == "importedit" else run_content(item)
 
 
 def run_content(item):
@@ -234,13 +278,14 @@ def run_content(item):
     r = dict(item)
     rid = r.pop("id")
     content = "".join(CP[c] for c in r["cs"])
-    src = SRC[r["pos"]] % esc_for(r["pos"], content)
+    style = "simple" if rid % 2 else "hex"
+    src = SRC[r["pos"]] % esc_for(r["pos"], content, style)
     enc = r.get("enc", "utf-8")
     if enc != "utf-8":
         if r["pos"] in ("nsuri", "href"):
             return {"id": rid, "skip": True}
         src = '@charset "%s";\n%s' % (enc, src)
-    a = {"kind": "content", "pos": r["pos"], "cs": r["cs"], "cps": [ord(c) for c in content], "src": src, "enc": enc}
+    a = {"kind": "content", "pos": r["pos"], "cs": r["cs"], "cps": [ord(c) for c in content], "src": src, "enc": enc, "style": style}
 
     def f():
         sheet = sheetast.parse(src)
